@@ -1,5 +1,5 @@
-(* C11 -- IPv4/IPv6 objects agree with the standard library.  Numeric layer: the derived integer values of IPv4Obj / IPv6Obj (network = addr AND netmask, netmask/hostmask complement, broadcast/last = network + hostmask, bounds, numhosts); gen_* are regenerated from /repo on every run.  Textual layer, IPv4: v4_parse (Model/IPText.v) mirrors the constructor's regex alternatives and ipaddress's validation; every accepted spelling (render4 f a p with any surrounding blanks) parses to (a, p), and whatever parses is in range.  Textual layer, IPv6: v6_parse (Model/IPText6.v) transcribes ipaddress's IPv6 parser and IPv6Obj's input handling; whatever parses is in range (v6_parse_sound), and every uncompressed eight-group text in any hextet spelling (lower/upper case minimal, zero padded: spellings), with or without /len and surrounding blanks, parses to (value_of groups, len) (v6_parse_full); every compressed text hi::lo, either side possibly empty, at most seven groups (v6_parse_compressed) denotes hi ++ zeros ++ lo; a dotted-quad tail after six groups or after hi::lo with at most five groups (v6_parse_embedded_full / _compressed) contributes the low 32 bits (value_of_embedded); 'addr<blanks>len' reads exactly as 'addr/len' (v6_parse_blank_form).  Rejection side: an accepted address text consists of hexadecimal digits, ':' and '.' only, so one foreign character anywhere makes the parse fail (v6_addr_alphabet, v6_addr_rejects_foreign).  These four shapes are all the spellings ipaddress accepts (scope ids are refused by IPv6Obj); rejection of everything else and the string renderings are decided by the v6text correspondence stream and the differential tie against Python's ipaddress (design/C11.md). *)
-From Coq Require Import ZArith List NArith. Require Import CCP.Lib.Res CCP.Lib.PyStr CCP.Model.IPRef CCP.Model.IPText CCP.Model.IPText6 CCP.gen.GenIP CCP.Proofs.C11Proofs CCP.Proofs.IPTextProofs CCP.Proofs.IPText6Proofs CCP.Proofs.IPText6Compressed CCP.Proofs.IPText6Embedded CCP.Proofs.IPText6Blank CCP.Proofs.IPText6Alphabet. Import ListNotations. Open Scope Z_scope.
+(* C11 -- IPv4/IPv6 objects agree with the standard library.  Numeric layer: the derived integer values of IPv4Obj / IPv6Obj (network = addr AND netmask, netmask/hostmask complement, broadcast/last = network + hostmask, bounds, numhosts); gen_* are regenerated from /repo on every run.  Textual layer, IPv4: v4_parse (Model/IPText.v) mirrors the constructor's regex alternatives and ipaddress's validation; every accepted spelling (render4 f a p with any surrounding blanks) parses to (a, p), and whatever parses is in range.  Textual layer, IPv6: v6_parse (Model/IPText6.v) transcribes ipaddress's IPv6 parser and IPv6Obj's input handling; whatever parses is in range (v6_parse_sound), and every uncompressed eight-group text in any hextet spelling (lower/upper case minimal, zero padded: spellings), with or without /len and surrounding blanks, parses to (value_of groups, len) (v6_parse_full); every compressed text hi::lo, either side possibly empty, at most seven groups (v6_parse_compressed) denotes hi ++ zeros ++ lo; a dotted-quad tail after six groups or after hi::lo with at most five groups (v6_parse_embedded_full / _compressed) contributes the low 32 bits (value_of_embedded); 'addr<blanks>len' reads exactly as 'addr/len' (v6_parse_blank_form).  Rejection side: an accepted address text consists of hexadecimal digits, ':' and '.' only, so one foreign character anywhere makes the parse fail (v6_addr_alphabet, v6_addr_rejects_foreign).  Never truncated: whatever v4_parse / v6_parse accept decomposes completely into an address text accepted as a whole plus nothing, a separator and a whole mask or length (v4_parse_shape with dotted_whole, v6_parse_shape) -- no unread remainder.  These four shapes are all the spellings ipaddress accepts (scope ids are refused by IPv6Obj); rejection of everything else and the string renderings are decided by the v6text correspondence stream and the differential tie against Python's ipaddress (design/C11.md). *)
+From Coq Require Import ZArith List NArith. Require Import CCP.Lib.Res CCP.Lib.PyStr CCP.Model.IPRef CCP.Model.IPText CCP.Model.IPText6 CCP.gen.GenIP CCP.Proofs.C11Proofs CCP.Proofs.IPTextProofs CCP.Proofs.IPText6Proofs CCP.Proofs.IPText6Compressed CCP.Proofs.IPText6Embedded CCP.Proofs.IPText6Blank CCP.Proofs.IPText6Alphabet CCP.Proofs.IPTextShape CCP.Proofs.IPText6Shape. Import ListNotations. Open Scope Z_scope.
 
 Theorem C11_v6_network_is_and :
   forall o, wf 128 o -> netw 128 o = Z.land (addr o) (netmask 128 o).
@@ -140,3 +140,28 @@ Theorem C11_v6_addr_rejects_foreign :
   forall a c, In c a -> addr_char c = false -> v6_addr a = None.
 Proof. exact v6_addr_rejects_foreign. Qed.
 Print Assumptions C11_v6_addr_rejects_foreign.
+
+Theorem C11_v4_parse_shape :
+  forall s a p, v4_parse s = Some (a, p) -> exists d1 rest, strip s = d1 ++ rest /\ dotted d1 = Some a /\ tail4 p rest.
+Proof. exact v4_parse_shape. Qed.
+Print Assumptions C11_v4_parse_shape.
+
+Theorem C11_dotted_whole :
+  forall s a, dotted s = Some a -> exists o1 o2 o3 o4 n1 n2 n3 n4, split_on c_dot s = [o1; o2; o3; o4] /\ octet o1 = Some n1 /\ octet o2 = Some n2 /\ octet o3 = Some n3 /\ octet o4 = Some n4 /\ a = quad n1 n2 n3 n4.
+Proof. exact dotted_whole. Qed.
+Print Assumptions C11_dotted_whole.
+
+Theorem C11_plen_digits_whole :
+  forall m p, plen_of_digits m = Some p -> forallb is_digit m = true /\ m <> [].
+Proof. exact plen_digits_whole. Qed.
+Print Assumptions C11_plen_digits_whole.
+
+Theorem C11_v6_parse_shape :
+  forall s a p, v6_parse s = Some (a, p) -> exists t addr, v6_text s = Some t /\ length t <= v6_maxlen /\ v6_addr addr = Some a /\ forallb (fun x => negb (N.eqb x c_slash)) addr = true /\ ((t = addr /\ p = 128%Z) \/ (exists m, t = addr ++ c_slash :: m /\ plen6_of_digits m = Some p)).
+Proof. exact v6_parse_shape. Qed.
+Print Assumptions C11_v6_parse_shape.
+
+Theorem C11_plen6_digits_whole :
+  forall m p, plen6_of_digits m = Some p -> forallb is_digit m = true /\ m <> [].
+Proof. exact plen6_digits_whole. Qed.
+Print Assumptions C11_plen6_digits_whole.
